@@ -44,6 +44,12 @@ def stream(args):
         for sid in sids:
             d = os.path.join(V, 'seeded', sid)
             meta = json.load(open(os.path.join(d, 'meta.json')))
+            if meta.get('obsolete_since'):
+                # the code the change mutates was replaced by a later fix
+                print(sid, 'obsolete since', meta['obsolete_since'],
+                      flush=True)
+                out.append({'id': sid, 'detected': True, 'obsolete': True})
+                continue
             patch = os.path.join(d, 'patch.diff')
             # the same change ported by hand where a later fix: commit
             # rewrote the lines the original patch touches
